@@ -4,12 +4,18 @@ pub mod c08;
 pub mod c09;
 pub mod c10;
 pub mod c19;
+pub mod chist;
 pub mod smoke;
 
 pub fn dispatch(a: &Args) {
 	match a.prop.as_str() {
 		"smoke" => smoke::run(a),
 		"c19" => c19::run(a),
+		"c03" => chist::run(a, "C03"),
+		"c04" => chist::run(a, "C04"),
+		"c15" => chist::run(a, "C15"),
+		"c15r" => chist::run_restore(a),
+		"c12h" => chist::run(a, "C12"),
 		"c01" => c01::run(a),
 		"c08" => c08::run(a),
 		"c09" => c09::run(a),
